@@ -459,6 +459,15 @@ def inline_awaited(raw, coroutine_lookup, max_rounds=6):
 def _closure_arg(S, op, closure_lookup, follow=False):
     """(closure raw body, captures) for a `move _n` operand whose single def is a closure literal (with `follow`:
     or a plain move of such a local - the parameter slot of an inlined helper)."""
+    if op.get("k") == "const":
+        # a function item used as the callable (`.map(shard_len)`): its body, no captures, parameters from _1
+        m_ = re.search(r"\{([A-Za-z_][\w:]*?)(::<.*>)?\}$", op.get("ty") or "")
+        fb_ = closure_lookup(m_.group(1)) if m_ and (op.get("ty") or "").lstrip().startswith(("fn(", "for<", "unsafe fn(", "extern")) else None
+        if fb_ is None or fb_.get("coroutine") or fb_.get("defkind") not in ("Fn", "AssocFn"):
+            return None
+        fb_ = dict(fb_)
+        fb_["_is_fn"] = True
+        return fb_, []
     if op.get("k") != "move" or op["pl"]["p"]:
         return None
     l = op["pl"]["l"]
@@ -483,11 +492,18 @@ def _closure_arg(S, op, closure_lookup, follow=False):
     return cb, agg["fields"]
 
 
+def _pty(cb, i):
+    """Type of the i-th parameter of a callable body (closures keep their environment in _1)."""
+    k = (1 if cb.get("_is_fn") else 2) + i
+    return cb["locals"][k]["ty"] if len(cb["locals"]) > k else "_"
+
+
 def _splice_closure(S, cb, captures, params, sp):
     """Splice closure body cb; params: list of operands bound to the closure's parameters
     (_2, _3, ...).  Returns (entry block, result local, [blocks that returned])."""
     S.raw.setdefault("inlined_closures", []).append(cb["path"])
-    rw = closure_env_rewriter(cb, captures)
+    is_fn = bool(cb.get("_is_fn"))
+    rw = None if is_fn else closure_env_rewriter(cb, captures)
     loff, boff, rets = S.splice_body(cb, sp, env_rewrite=rw, keep_param_names=True)
     # remap_node applied lmap to every place *not* rewritten; rewritten (captured) places carry -1-l
     for b in S.blocks[boff:]:
@@ -495,7 +511,7 @@ def _splice_closure(S, cb, captures, params, sp):
     entry = S.new_block()
     st = S.blocks[entry]["stmts"]
     for i, op in enumerate(params):
-        st.append(assign(P(loff + 2 + i), use(op), sp))
+        st.append(assign(P(loff + (1 if is_fn else 2) + i), use(op), sp))
     S.blocks[entry]["term"] = goto(boff, sp)
     return entry, loff, rets
 
@@ -688,7 +704,7 @@ def _desugar_one(S, bi, tpl, closure_lookup):
         rty_ = cb["locals"][0]["ty"]
         if not rty_.startswith("std::result::Result<(),") or len(cb["locals"]) < 3:
             return False
-        ety = cb["locals"][2]["ty"]
+        ety = _pty(cb, 0)
         nxt = S.new_local("std::option::Option<%s>" % ety)
         entry, loff, rets = _splice_closure(S, cb, caps, [mv(_payload(P(nxt), OPTION, "Some"))], sp)
         head = S.new_block()
@@ -751,7 +767,7 @@ def _desugar_one(S, bi, tpl, closure_lookup):
                     mapper, src_op, src_ty = mc, d_[2]["args"][0], (d_[2].get("argtys") or [rty])[0]
         if mapper is None:
             return False
-        ety = mapper[0]["locals"][2]["ty"] if len(mapper[0]["locals"]) > 2 else "_"
+        ety = _pty(mapper[0], 0)
         it = S.new_local(src_ty, user=False)
         acc = S.new_local(dty, user=True)
         S.debug.append({"name": "sum", "pl": P(acc)})
@@ -787,7 +803,7 @@ def _desugar_one(S, bi, tpl, closure_lookup):
         cb, caps = c
         if len(cb["locals"]) < 4:
             return False
-        aty = cb["locals"][2]["ty"]
+        aty = _pty(cb, 0)
         src_op, src_ty = args[0], rty
         mapper = None
         if args[0].get("k") in ("move", "copy") and not args[0]["pl"]["p"]:
@@ -798,7 +814,7 @@ def _desugar_one(S, bi, tpl, closure_lookup):
                     mapper = mc
                     src_op = d_[2]["args"][0]
                     src_ty = (d_[2].get("argtys") or [rty])[0]
-        ety = (mapper[0]["locals"][2]["ty"] if mapper and len(mapper[0]["locals"]) > 2 else cb["locals"][3]["ty"])
+        ety = (_pty(mapper[0], 0) if mapper else _pty(cb, 1))
         it = S.new_local(src_ty, user=False)
         acc = S.new_local(aty, user=True)
         pname = next((d__["name"] for d__ in cb.get("debug", []) if d__["pl"]["l"] == 2 and not d__["pl"]["p"]), "acc")
@@ -845,7 +861,7 @@ def _desugar_one(S, bi, tpl, closure_lookup):
             return False
         cb, caps = c
         # element type: the closure's first parameter
-        ety = cb["locals"][2]["ty"] if len(cb["locals"]) > 2 else "_"
+        ety = _pty(cb, 0)
         if tpl == "for_each":
             it = S.new_local(rty, user=False)
             bb["stmts"].append(assign(P(it), use(copy.deepcopy(args[0])), sp))
